@@ -350,6 +350,7 @@ func RunBatch(c *Ctx, name string, start, end int, extra interface{}, timeout ti
 			return deaths
 		}
 		c.R.Cases(int64(lastIdx - start))
+		c.R.Sample(map[string]interface{}{"case_running_when_the_child_process_ended": lastDesc})
 		onDeath(Death{Idx: lastIdx, Desc: lastDesc, Result: cr})
 		start = lastIdx + 1
 		if deaths > 50 {
